@@ -39,6 +39,10 @@ P = {
   "Static decision for every byte string of every length: the accept sets of SetCompressedBytes, SetUncompressedBytes, SetBytes, NewPointFromBytes and NewPointFromCoords (extracted by abstract interpretation on a symbolic input of symbolic length, as propositional formulas over atoms such as len = 33, src[0] = 2, x >= p, x^3+7 is a square, y^2 = x^3+7) are equivalent to the SEC 1 rule set; the stored point for prefixes 2/3/4/0 is (x, root with the parity of the prefix, 1) / (x,y,1) / (0,1,0) with the validity flag set; on every rejecting valuation the receiver's fields keep their initial symbols and the returned pointer is nil; the three encoders return 0x00 for Z = 0 and prefix || Bytes(X/Z) [|| Bytes(Y/Z)] otherwise (compressed prefix = 2 + parity(Y/Z)); RecoverPoint decided for every recovery id (0..3 concretely, >= 4 symbolically): x = r (+ n), accepted iff [x >= n] = bit 1, x mod n = r, x^3+7 a square, parity = bit 0; SplitUncompressedPoint = (b[1:33], b[64]&1), panics unless len = 65.",
   "Trusted: C01 (field specification incl. sqrt_ratio returning a root exactly when one exists), C02, C03-5 (rescale), the propositional comparison, go/ssa, the checker. Encode/decode round-trip identities follow from the decided clauses and C01's canonical Bytes; they are derived, not separately computed.",
   "abstract interpretation over go/ssa against the field specification; accept-set formulas and stored values compared as normal forms under every consistent valuation of the branch atoms"),
+ "C08": ("other",
+  "Static decision for all keys, digests and nonces: on the only path leaving sign's retry loop (loop state forgotten at the head; exit analysed from an arbitrary iteration) r = x(kG) mod n != 0, s0 = (r*d + e)/k != 0, and after the loop s = low-s form of s0 and v = (([x(kG) >= n] << 1) | parity(y(kG))) xor [s0 > (n-1)/2] for all eight flag valuations (so v in [0,3]); errors are exactly short digest / entropy failure / sampler failure. PrivateKey.Sign decided for nil options, a bare crypto.Hash, and *ECDSAOptions with hash unset/SHA-224/256/384/512, Encoding 0,1,2 and every other value, SelfVerify symbolic: bytes are returned exactly when the digest length matches, signing succeeded, the optional self-check passed and the encoding is defined; they are the matching builder applied to sign's (r,s,v), independent of SelfVerify; no bytes accompany an error; verify writes none of its operands.",
+  "Trusted: C09 (k in [1,n)), C05, C06, C02, C07, C12 (builders/parsers agree). That the result verifies under the signer's key and that the emitted id recovers the signer are algebraic consequences of the decided formulas; derived, not computed.",
+  "abstract interpretation over go/ssa (loop widening + exit-path analysis) against lower-layer specifications; terms and accept sets compared as normal forms"),
  "C10": ("other",
   "Static decision for all keys and inputs: ECDH(k,B) = Bytes(x(k.scalar * B.point)) with the identity the only error; accept sets of NewPrivateKey (32 bytes, < n, non-zero), NewPrivateKeyFromScalar (non-zero), NewPublicKey (valid SEC 1 encoding per C06 of a non-identity point), NewPublicKeyFromPoint (non-identity) as propositional normal forms; an accepted key stores fresh copies (allocation-site origin) of the scalar / point, the public point d*G and 04||x||y of the stored point; no key object accompanies an error; PrivateKey / PublicKey objects are allocated and written only inside the two unexported constructors (who-writes over every package of the module); accessors return fresh copies, do not write the key, and CompressedBytes = (2 + parity) || x of the stored point.",
   "Trusted: C04 (ScalarMult exact; symmetry ECDH(a,B) = ECDH(b,A) = x(ab*G) is its consequence, recorded as derived), C05, C06, C02; go/ssa; the checker.",
@@ -53,7 +57,7 @@ P = {
   "abstract interpretation over go/ssa against lower-layer specifications; accept-set formulas compared as propositional normal forms"),
 }
 
-CLAIMED = ["C01", "C02", "C03", "C04", "C05", "C06", "C07", "C10", "C11", "C16", "C19"]
+CLAIMED = ["C01", "C02", "C03", "C04", "C05", "C06", "C07", "C08", "C10", "C11", "C16", "C19"]
 
 REASON_PENDING = "check under construction in this session (see DESIGN.md section 2); not yet claimed"
 
